@@ -430,3 +430,234 @@ Proof. repeat split; vm_compute; reflexivity. Qed.
 Lemma src_file_name_shape :
   src_fname_ops_cluster = canon_ops /\ src_fname_ops_router = canon_ops /\ src_max_file_path = 128%nat.
 Proof. repeat split; reflexivity. Qed.
+
+(* ================================================================================================ *)
+(* the directory of a path-mode container: what is written is what is read back                     *)
+(* ================================================================================================ *)
+From Coq Require Import Permutation.
+
+Lemma loader_accepts_json p : loader_accepts (p ++ ".json")%string = true.
+Proof.
+  unfold loader_accepts. rewrite str_app_length. cbn [String.length].
+  replace (String.length p + 5 - 5)%nat with (String.length p) by lia.
+  induction p as [|c p IH]; [reflexivity|]. cbn [String.length append substring]. exact IH.
+Qed.
+
+Lemma loader_accepts_canon max n : loader_accepts (file_name max canon_ops n) = true.
+Proof. destruct (file_name_canon_json max n) as [p ->]. apply loader_accepts_json. Qed.
+
+Definition dkeys (d : dir) : list string := map fst d.
+
+Lemma NoDup_map_filter {X Y} (g : X -> Y) (f : X -> bool) l : NoDup (map g l) -> NoDup (map g (filter f l)).
+Proof.
+  induction l as [|a l IH]; cbn; [auto|]. intros H. inversion H as [|? ? Hn Hd]; subst.
+  destruct (f a); cbn; [|apply IH; exact Hd].
+  constructor; [|apply IH; exact Hd].
+  intros Hin. apply Hn. apply in_map_iff in Hin. destruct Hin as [x [Hx Hin]]. apply filter_In in Hin.
+  apply in_map_iff. exists x. tauto.
+Qed.
+
+Lemma filter_all {X} (f : X -> bool) l : (forall x, In x l -> f x = true) -> filter f l = l.
+Proof.
+  induction l as [|a l IH]; cbn; [reflexivity|]. intros H. rewrite (H a (or_introl eq_refl)). f_equal.
+  apply IH. intros x Hx. apply H. right. exact Hx.
+Qed.
+
+Lemma dget_dput_same k x d : dget k (dput k x d) = Some x.
+Proof. unfold dput. cbn. rewrite String.eqb_refl. reflexivity. Qed.
+
+Lemma dget_filter_ne k k' d : k' <> k -> dget k' (filter (fun kv => negb (String.eqb (fst kv) k)) d) = dget k' d.
+Proof.
+  intros H. induction d as [|[a x] d IH]; cbn; [reflexivity|].
+  destruct (String.eqb a k) eqn:E; cbn.
+  - apply String.eqb_eq in E. subst a. rewrite IH.
+    destruct (String.eqb k k') eqn:E2; [apply String.eqb_eq in E2; congruence|reflexivity].
+  - rewrite IH. reflexivity.
+Qed.
+
+Lemma dget_dput_other k k' x d : k' <> k -> dget k' (dput k x d) = dget k' d.
+Proof.
+  intros H. unfold dput. cbn. destruct (String.eqb k k') eqn:E; [apply String.eqb_eq in E; congruence|].
+  apply dget_filter_ne. exact H.
+Qed.
+
+Lemma dput_nodup k x d : NoDup (dkeys d) -> NoDup (dkeys (dput k x d)).
+Proof.
+  intros H. unfold dput, dkeys. cbn. constructor.
+  - intros Hin. apply in_map_iff in Hin. destruct Hin as [[a y] [Ha Hin]]. apply filter_In in Hin. destruct Hin as [_ Hf].
+    cbn in *. subst a. rewrite String.eqb_refl in Hf. discriminate.
+  - apply NoDup_map_filter. exact H.
+Qed.
+
+Lemma dget_in d : NoDup (dkeys d) -> forall k x, In (k, x) d <-> dget k d = Some x.
+Proof.
+  induction d as [|[a y] d IH]; intros H k x; cbn.
+  - split; [contradiction|discriminate].
+  - inversion H as [|? ? Hn Hd]; subst. split.
+    + intros [E|Hin].
+      * inversion E; subst. rewrite String.eqb_refl. reflexivity.
+      * destruct (String.eqb a k) eqn:E.
+        -- apply String.eqb_eq in E. subst a. exfalso. apply Hn. apply in_map_iff. exists (k, x). split; [reflexivity|exact Hin].
+        -- apply IH; assumption.
+    + destruct (String.eqb a k) eqn:E.
+      * apply String.eqb_eq in E. subst a. intros E2. inversion E2; subst. left. reflexivity.
+      * intros Hg. right. apply IH; assumption.
+Qed.
+
+Section PathDir.
+Context {A : Type} (fn : A -> string) (enc : A -> json).
+
+Lemma written_nodup items : forall d, NoDup (dkeys d) -> NoDup (dkeys (path_written fn enc d items)).
+Proof.
+  induction items as [|a items IH]; intros d H; cbn; [exact H|]. apply IH. apply dput_nodup. exact H.
+Qed.
+
+Lemma written_other items : forall d k, ~ In k (map fn items) -> dget k (path_written fn enc d items) = dget k d.
+Proof.
+  induction items as [|a items IH]; intros d k H; [reflexivity|].
+  change (path_written fn enc d (a :: items)) with (path_written fn enc (dput (fn a) (enc a) d) items).
+  cbn in H. rewrite IH by tauto. apply dget_dput_other. intros E. apply H. left. symmetry. exact E.
+Qed.
+
+Lemma written_get items : NoDup (map fn items) -> forall d it, In it items ->
+  dget (fn it) (path_written fn enc d items) = Some (enc it).
+Proof.
+  induction items as [|a items IH]; intros H d it Hin; [contradiction|].
+  cbn in H. inversion H as [|? ? Hn Hd]; subst.
+  change (path_written fn enc d (a :: items)) with (path_written fn enc (dput (fn a) (enc a) d) items).
+  destruct Hin as [E|Hin].
+  - subst a. rewrite written_other by exact Hn. apply dget_dput_same.
+  - apply IH; assumption.
+Qed.
+
+(* the directory after the write holds exactly one file per item - the stale files are gone - when no two items share
+   a file name *)
+Theorem path_write_in d items : NoDup (dkeys d) -> NoDup (map fn items) ->
+  forall k x, In (k, x) (path_write fn enc d items) <-> exists it, In it items /\ k = fn it /\ x = enc it.
+Proof.
+  intros Hd Hi k x. unfold path_write. rewrite filter_In. cbn [fst].
+  pose proof (written_nodup items d Hd) as HW. split.
+  - intros [Hin Hex]. apply existsb_exists in Hex. destruct Hex as [k0 [Hk0 E]]. apply String.eqb_eq in E. subst k0.
+    apply in_map_iff in Hk0. destruct Hk0 as [it [E Hit]]. exists it. split; [exact Hit|]. split; [symmetry; exact E|].
+    apply (dget_in _ HW) in Hin. rewrite <- E in Hin. rewrite (written_get items Hi d it Hit) in Hin. congruence.
+  - intros [it [Hit [-> ->]]]. split.
+    + apply (dget_in _ HW). apply written_get; assumption.
+    + apply existsb_exists. exists (fn it). split; [apply in_map; exact Hit|apply String.eqb_refl].
+Qed.
+
+Theorem path_write_perm d items : NoDup (dkeys d) -> NoDup (map fn items) ->
+  Permutation (path_write fn enc d items) (map (fun it => (fn it, enc it)) items).
+Proof.
+  intros Hd Hi. apply NoDup_Permutation.
+  - apply (NoDup_map_inv fst). unfold path_write. apply NoDup_map_filter. apply written_nodup. exact Hd.
+  - apply (NoDup_map_inv fst). rewrite map_map. cbn. exact Hi.
+  - intros [k x]. rewrite (path_write_in d items Hd Hi). rewrite in_map_iff. split.
+    + intros [it [H1 [H2 H3]]]. exists it. subst. tauto.
+    + intros [it [E H]]. inversion E; subst. exists it. tauto.
+Qed.
+
+Lemma dins_perm e l : Permutation (dins e l) (e :: l).
+Proof.
+  induction l as [|e' l IH]; cbn; [apply Permutation_refl|].
+  destruct (String.compare (fst e) (fst e')); try apply Permutation_refl.
+  eapply Permutation_trans; [apply perm_skip; exact IH|apply perm_swap].
+Qed.
+
+Lemma listing_perm d : Permutation (listing d) d.
+Proof.
+  induction d as [|e d IH]; cbn; [apply Permutation_refl|].
+  eapply Permutation_trans; [apply dins_perm|apply perm_skip; exact IH].
+Qed.
+
+Lemma sequence_map_some {X Y} (f : X -> option Y) (g : X -> Y) l :
+  (forall x, In x l -> f x = Some (g x)) -> sequence (map f l) = Some (map g l).
+Proof.
+  induction l as [|a l IH]; intros H; cbn; [reflexivity|].
+  rewrite (H a (or_introl eq_refl)). cbn. rewrite IH; [reflexivity|]. intros x Hx. apply H. right. exact Hx.
+Qed.
+
+(* WRITE THEN READ.  For every starting directory (any stale files), every list of items no two of which share a file
+   name, whose file names the loader accepts and whose documents decode: reading the directory back yields exactly the
+   decoded items, up to the order of the listing (ReadDir sorts by file name) *)
+Definition reloaded (dec : json -> option A) (it : A) : A := match dec (enc it) with Some v => v | None => it end.
+
+Theorem path_read_back (accepts : string -> bool) (dec : json -> option A) d items :
+  NoDup (dkeys d) -> NoDup (map fn items) ->
+  (forall it, In it items -> accepts (fn it) = true) ->
+  (forall it, In it items -> exists v', dec (enc it) = Some v') ->
+  exists l, path_read accepts dec (path_write fn enc d items) = Some l /\ Permutation l (map (reloaded dec) items).
+Proof.
+  intros Hd Hi Hacc Hdec.
+  destruct items as [|a0 items0] eqn:Eitems.
+  - exists []. split; [|apply Permutation_refl]. unfold path_read, path_write. cbn [map existsb].
+    replace (filter (fun _ : string * json => false) (path_written fn enc d [])) with (@nil (string * json)); [reflexivity|].
+    generalize (path_written fn enc d []). intros l. induction l as [|x l IH]; cbn; [reflexivity|exact IH].
+  - rewrite <- Eitems in *. clear Eitems items0.
+    set (D := path_write fn enc d items).
+    set (g := fun kv : string * json => match dec (snd kv) with Some v => v | None => a0 end).
+    assert (HD : forall kv, In kv D -> exists it, In it items /\ kv = (fn it, enc it)).
+    { intros [k x] Hin. apply (path_write_in d items Hd Hi) in Hin. destruct Hin as [it [H1 [H2 H3]]]. exists it. subst. tauto. }
+    assert (HL : forall kv, In kv (listing D) -> In kv D) by (intros kv; apply Permutation_in; apply listing_perm).
+    assert (Hall : filter (fun kv => accepts (fst kv)) (listing D) = listing D).
+    { apply filter_all. intros kv Hin. destruct (HD kv (HL kv Hin)) as [it [Hit ->]]. cbn. apply Hacc. exact Hit. }
+    exists (map g (listing D)). split.
+    + unfold path_read. fold D. rewrite Hall. apply sequence_map_some.
+      intros kv Hin. destruct (HD kv (HL kv Hin)) as [it [Hit ->]]. unfold g. cbn.
+      destruct (Hdec it Hit) as [v' Hv]. rewrite Hv. reflexivity.
+    + eapply Permutation_trans; [apply Permutation_map; apply listing_perm|].
+      eapply Permutation_trans; [apply Permutation_map; apply (path_write_perm d items Hd Hi)|].
+      rewrite map_map. rewrite (map_ext_in _ (reloaded dec)); [apply Permutation_refl|].
+      intros it Hit. unfold g, reloaded. cbn. destruct (Hdec it Hit) as [v' Hv]. rewrite Hv. reflexivity.
+Qed.
+
+(* items that are their own reload come back as they are *)
+Corollary path_roundtrip (accepts : string -> bool) (dec : json -> option A) d items :
+  NoDup (dkeys d) -> NoDup (map fn items) ->
+  (forall it, In it items -> accepts (fn it) = true) ->
+  (forall it, In it items -> dec (enc it) = Some it) ->
+  exists l, path_read accepts dec (path_write fn enc d items) = Some l /\ Permutation l items.
+Proof.
+  intros Hd Hi Hacc Hdec.
+  destruct (path_read_back accepts dec d items Hd Hi Hacc) as [l [Hr Hp]].
+  - intros it Hit. exists it. apply Hdec. exact Hit.
+  - exists l. split; [exact Hr|]. rewrite (map_ext_in _ (fun it => it)) in Hp; [rewrite map_id in Hp; exact Hp|].
+    intros it Hit. unfold reloaded. rewrite (Hdec it Hit). reflexivity.
+Qed.
+
+(* DUMP, LOAD, DUMP.  Items whose reload prints as they do and keeps their name: writing the reloaded items - into any
+   directory - gives the directory of the first write *)
+Theorem path_redump (accepts : string -> bool) (dec : json -> option A) d items :
+  NoDup (dkeys d) -> NoDup (map fn items) ->
+  (forall it, In it items -> accepts (fn it) = true) ->
+  (forall it, In it items -> exists v', dec (enc it) = Some v' /\ enc v' = enc it /\ fn v' = fn it) ->
+  exists l, path_read accepts dec (path_write fn enc d items) = Some l /\ List.length l = List.length items /\
+    forall d', NoDup (dkeys d') -> Permutation (path_write fn enc d' l) (path_write fn enc d items).
+Proof.
+  intros Hd Hi Hacc Hdec.
+  destruct (path_read_back accepts dec d items Hd Hi Hacc) as [l [Hr Hp]].
+  - intros it Hit. destruct (Hdec it Hit) as [v' [H _]]. exists v'. exact H.
+  - assert (Hpair : map (fun it => (fn it, enc it)) (map (reloaded dec) items) = map (fun it => (fn it, enc it)) items).
+    { rewrite map_map. apply map_ext_in. intros it Hit. unfold reloaded. destruct (Hdec it Hit) as [v' [H [H1 H2]]].
+      rewrite H, H1, H2. reflexivity. }
+    exists l. split; [exact Hr|]. split.
+    + rewrite (Permutation_length Hp). apply map_length.
+    + intros d' Hd'.
+      assert (Hl : NoDup (map fn l)).
+      { eapply Permutation_NoDup; [apply Permutation_sym; apply Permutation_map; exact Hp|].
+        replace (map fn (map (reloaded dec) items)) with (map fn items); [exact Hi|].
+        apply (f_equal (map fst)) in Hpair. rewrite !map_map in Hpair. cbn in Hpair. rewrite map_map. symmetry. exact Hpair. }
+      eapply Permutation_trans; [apply (path_write_perm d' l Hd' Hl)|].
+      eapply Permutation_trans; [apply Permutation_map; exact Hp|].
+      rewrite Hpair. apply Permutation_sym. apply path_write_perm; assumption.
+Qed.
+End PathDir.
+
+(* and with a shared file name the earlier item is gone: the second file replaces the first (the listed finding) *)
+Lemma path_collision_loses (a b : string) :
+  a <> b -> file_name 128 canon_ops a = file_name 128 canon_ops b ->
+  map fst (path_write (file_name 128 canon_ops) (fun n => JStr n) [] [a; b]) = [file_name 128 canon_ops b] /\
+  map snd (path_write (file_name 128 canon_ops) (fun n => JStr n) [] [a; b]) = [JStr b].
+Proof.
+  intros Hab E. unfold path_write, path_written. cbn [fold_left map]. unfold dput. cbn [filter].
+  rewrite E. rewrite String.eqb_refl. cbn [negb filter fst existsb]. rewrite String.eqb_refl. cbn. split; reflexivity.
+Qed.
